@@ -95,6 +95,22 @@ func main() {
 			add(chain.Run(c, cfg, chain.RunOpts{Exhaustive: true, Timeout: 20 * time.Minute}))
 		}
 	}
+	// the final revision (revision number 2^64-1) and what may follow it: nothing
+	{
+		p := chain.Shapes()["v1only"]
+		p.GenSC = []chain.AbsOut{{600000, "B"}}
+		cfg := chain.BaseConfig(p)
+		cfg.Addrs = []string{"B"}
+		cfg.Templates, cfg.Defects = []string{"form1", "rev1"}, []string{"finalrn"}
+		cfg.Pay1, cfg.Sizes, cfg.RevShifts = []int{256411}, []int{200}, []int{24}
+		cfg.WinStarts, cfg.WinLens = []int{2}, []int{2}
+		cfg.MaxHeight, cfg.MaxTxns, cfg.MaxReverts, cfg.NoPost = 3, 1, 0, true
+		st := chain.Run(c, cfg, chain.RunOpts{Exhaustive: true, Timeout: 20 * time.Minute})
+		add(st)
+		if st.Tags["v1:rev1!stalern"] == 0 || st.Tags["v1:rev1final"] == 0 {
+			c.Infra("vacuity: no revision after a final revision was generated")
+		}
+	}
 	// payouts are delayed by the maturity period: an immature payout spent in its own block (presented as mature), in the
 	// block exactly at the ephemeral-output height and around it
 	{
